@@ -188,6 +188,8 @@ class MetaUnionRef(type):
                     typeid = None
                 elif len(value) == 1:  # must be XObject or None
                     xobj = value[0]
+                    if isinstance(xobj, cls):  # another reference of this type
+                        xobj = xobj.get()
                     if xobj is not None:
                         typ = xobj.__class__
                         typeid = cls._typeid_from_type(typ)
